@@ -211,11 +211,14 @@ Record row : Type := mkRow {
 
 Definition selected (o : opts) (ps : list posting) : list posting := filter (sel o) ps.
 
-(* the register with --empty and without --depth: one row per selected posting *)
+(* the register with --empty and without --depth: one row per visited posting; parametric in
+   the amount expression f and the visited postings sp *)
+Definition rows_of (ord : bool) (f : posting -> amount) (sp : list posting) : res (list row) :=
+  do ts <- running ord VVoid (map f sp);
+  Ok (map (fun pt => mkRow (p_acct (fst pt)) (VAmt (f (fst pt))) (snd pt)) (combine sp ts)).
+
 Definition reg_rows (ord : bool) (o : opts) (ps : list posting) : res (list row) :=
-  let sp := selected o ps in
-  do ts <- running ord VVoid (map (amt o) sp);
-  Ok (map (fun pt => mkRow (p_acct (fst pt)) (VAmt (amt o (fst pt))) (snd pt)) (combine sp ts)).
+  rows_of ord (amt o) (selected o ps).
 
 (* display_filter_posts::output_rounding without --empty (and with --no-rounding): a row is
    printed iff its stripped display amount is not display-zero *)
@@ -335,44 +338,49 @@ Definition children (all : list path) (a : path) : list path :=
   isort (nodup path_dec (filter_map (child_toward a) all)).
 
 (* account_t::amount(): the sum, in file order, of the visited postings of exactly this
-   account; NULL_VALUE when the account was not visited *)
+   account; NULL_VALUE when the account was not visited.  The functions below are parametric
+   in the amount expression `f` and in the list `sp` of visited (selected) postings. *)
 Fixpoint vsum (ord : bool) (acc : value) (l : list amount) : res value :=
   match l with
   | [] => Ok acc
   | a :: l' => do t <- v_add ord acc (VAmt a); vsum ord t l'
   end.
 
-Definition own_posts (o : opts) (ps : list posting) (a : path) : list posting :=
-  filter (fun p => path_eqb (p_acct p) a) (selected o ps).
+Definition own_posts (sp : list posting) (a : path) : list posting :=
+  filter (fun p => path_eqb (p_acct p) a) sp.
 
-Definition own (ord : bool) (o : opts) (ps : list posting) (a : path) : res value :=
-  vsum ord VVoid (map (amt o) (own_posts o ps a)).
+Definition own (ord : bool) (f : posting -> amount) (sp : list posting) (a : path)
+  : res value :=
+  vsum ord VVoid (map f (own_posts sp a)).
 
 (* fold of total() over the children, in map order *)
-Fixpoint kids_total (ord : bool) (f : path -> res value) (ks : list path) (acc : value)
+Fixpoint kids_total (ord : bool) (F : path -> res value) (ks : list path) (acc : value)
   : res value :=
   match ks with
   | [] => Ok acc
-  | k :: ks' => do t <- f k; do acc' <- add_nonnull ord acc t; kids_total ord f ks' acc'
+  | k :: ks' => do t <- F k; do acc' <- add_nonnull ord acc t; kids_total ord F ks' acc'
   end.
 
-(* account_t::total(): children first, then the account's own amount.  fuel bounds the depth
-   of the tree below `a` (total_of supplies enough) *)
-Fixpoint total (fuel : nat) (ord : bool) (o : opts) (ps : list posting) (a : path)
-  : res value :=
+(* account_t::total(): children first, then the account's own amount.  `all` = the accounts
+   of the tree; fuel bounds the depth of the tree below `a` (total_of supplies enough) *)
+Fixpoint total (fuel : nat) (ord : bool) (f : posting -> amount) (all : list path)
+         (sp : list posting) (a : path) : res value :=
   match fuel with
-  | O => own ord o ps a
-  | S f =>
-      do kids <- kids_total ord (total f ord o ps) (children (map p_acct ps) a) VVoid;
-      do self <- own ord o ps a;
+  | O => own ord f sp a
+  | S n =>
+      do kids <- kids_total ord (total n ord f all sp) (children all a) VVoid;
+      do self <- own ord f sp a;
       add_nonnull ord kids self
   end.
 
 Definition max_depth (ps : list posting) : nat :=
   fold_right (fun p m => Nat.max (length (p_acct p)) m) O ps.
 
+Definition own_of (ord : bool) (o : opts) (ps : list posting) (a : path) : res value :=
+  own ord (amt o) (selected o ps) a.
+
 Definition total_of (ord : bool) (o : opts) (ps : list posting) (a : path) : res value :=
-  total (max_depth ps) ord o ps a.
+  total (max_depth ps) ord (amt o) (map p_acct ps) (selected o ps) a.
 
 (* get_total / get_amount of an account: SIMPLIFIED_VALUE_OR_ZERO *)
 Definition simplified_or_zero (v : value) : value :=
